@@ -191,11 +191,15 @@ func c06CLI(args []string) string {
 	if exit != 0 && exit != 1 {
 		return fmt.Sprintf("exit status %d (stderr %q)", exit, truncate(se, 300))
 	}
-	if se != "" {
-		return fmt.Sprintf("wrote to stderr: %q", truncate(se, 300))
+	// a diagnostic may go to either stream; a successful run prints its result on stdout only
+	if exit == 0 && se != "" {
+		return fmt.Sprintf("exit 0 but wrote to stderr: %q", truncate(se, 300))
 	}
-	if so == "" || !strings.HasSuffix(so, "\n") {
+	if exit == 0 && (so == "" || !strings.HasSuffix(so, "\n")) {
 		return fmt.Sprintf("stdout is not a terminated line: %q", truncate(so, 200))
+	}
+	if exit == 1 && strings.TrimSpace(so+se) == "" {
+		return "exit 1 without a diagnostic"
 	}
 	return ""
 }
@@ -699,10 +703,12 @@ func c06CLIUnit(t *testing.T, r *runner) {
 			bad = "the CLI did not terminate within 30 s"
 		case exit != 0 && exit != 1:
 			bad = fmt.Sprintf("exit status %d (stderr %q)", exit, truncate(se, 300))
-		case se != "":
-			bad = fmt.Sprintf("wrote to stderr: %q", truncate(se, 300))
-		case so == "" || !strings.HasSuffix(so, "\n"):
+		case exit == 0 && se != "":
+			bad = fmt.Sprintf("exit 0 but wrote to stderr: %q", truncate(se, 300))
+		case exit == 0 && (so == "" || !strings.HasSuffix(so, "\n")):
 			bad = fmt.Sprintf("stdout is not a terminated line: %q", truncate(so, 200))
+		case exit == 1 && strings.TrimSpace(so+se) == "":
+			bad = "exit 1 without a diagnostic"
 		}
 		if bad != "" {
 			kc.Detail = bad
